@@ -419,6 +419,9 @@ class C07(Property):
         'that the call returns what the model says in the rref configurations is a Float/tolerance correspondence (1e-9 of the row '
         'scale) at planted states with concentrations in [0.1, 10], not an exact one',
         'NumSysLinTanh (named in the anchors) raises TypeError for every input — open known finding, no theorem',
+        'histories on ONE EqSystem object (evaluate, `eqsys += [Equilibrium…]`, `rxn.param` set in place, evaluate again in every '
+        'formulation/configuration): the model is a pure function of (system, y, params), i.e. it describes each evaluation of the '
+        'CURRENT system; that the real object has no stale state between evaluations is oracle-only (op history)',
         'new_eq_params=False, _NumSysLinNegPenalty, non-integer stoichiometric coefficients, composition=None: not modelled, not sampled',
         'Balanced (B nu^T = 0) is a hypothesis of extent_preserves_totals; that the constructor check_balance establishes it is checked '
         'by the structure oracle per instance (C05 owns the theorem)',
@@ -430,7 +433,7 @@ class C07(Property):
                ('chempy/equilibria.py', 'EqSystem.eq_constants'), ('chempy/equilibria.py', 'EqSystem.stoichs_constants'),
                ('chempy/equilibria.py', 'EqSystem.equilibrium_quotients'), ('chempy/equilibria.py', 'EqSystem.composition_conservation'),
                ('chempy/equilibria.py', 'EqSystem.non_precip_rids'), ('chempy/equilibria.py', 'EqSystem.root'), ('chempy/equilibria.py', 'EqSystem.phase_transfer_reaction_idxs'),
-               ('chempy/reactionsystem.py', 'ReactionSystem.stoichs'), ('chempy/reactionsystem.py', 'ReactionSystem.composition_balance_vectors'),
+               ('chempy/reactionsystem.py', 'ReactionSystem.stoichs'), ('chempy/reactionsystem.py', 'ReactionSystem.__iadd__'), ('chempy/reactionsystem.py', 'ReactionSystem.composition_balance_vectors'),
                ('chempy/reactionsystem.py', 'ReactionSystem.upper_conc_bounds'),
                ('chempy/chemistry.py', 'equilibrium_quotient'), ('chempy/chemistry.py', 'Reaction._xprecipitate_stoich'),
                ('chempy/chemistry.py', 'Reaction.precipitate_stoich'), ('chempy/chemistry.py', 'Reaction.has_precipitates'),
@@ -446,7 +449,7 @@ class C07(Property):
             return F(rng.randint(1, 60))
         return F(rng.randint(1, 9999), 10 ** rng.randint(0, 12))
 
-    def _planted(self, rng, sysspec, form, kind, narrow=None):
+    def _planted(self, rng, sysspec, form, kind, narrow=None, viol_index=None):
         """(y, params, info) for a planted state"""
         N = net_matrix(sysspec)
         ns, nr = len(sysspec['species']), len(N)
@@ -467,7 +470,7 @@ class C07(Property):
         fac = rng.choice([F(2), F(1, 2), F(9, 8), F(3), F(7, 8)])
         info = {'kind': kind}
         if kind == 'viol_q' and nr:
-            i = rng.randrange(nr)
+            i = rng.randrange(nr) if viol_index is None else viol_index
             K[i] = K[i] * fac
             info['i'] = i
         elif kind == 'viol_total':
@@ -501,6 +504,39 @@ class C07(Property):
         p = [val(0.1, 0.05) for _ in range(ns)] + [val(0.1, 0.05) for _ in range(nr)]
         return y, p
 
+    def _gen_history(self, rng, spec, es_kind):
+        """a history on one object: start with the first k reactions, evaluate, add the rest in one or two `+=`, evaluate after
+        each change — every formulation / reduction configuration, planted for the system AS IT IS at that step"""
+        rxns = spec['rxns']
+        nr = len(rxns)
+        k = rng.randint(1, nr - 1)
+        cur = list(rxns[:k])
+        steps = []
+
+        def ev(newest=None):
+            form = rng.choice(['lin', 'square', 'log', 'linrel', 'lin'])
+            re_, rp_ = rng.choice([(False, False), (False, False), (True, False), (False, True), (True, True)])
+            kind = rng.choice(['eq', 'eq', 'viol_q', 'viol_q', 'viol_total'])
+            vi = None
+            if kind == 'viol_q' and newest is not None and rng.random() < 0.7:
+                vi = rng.choice(newest)            # violate an equilibrium that was added in place
+            now = {'species': spec['species'], 'rxns': cur}
+            y, p, info = self._planted(rng, now, form, kind, narrow=True if (re_ or rp_) else None, viol_index=vi)
+            steps.append({'do': 'eval', 'form': form, 'kind': info['kind'], 'rref_equil': re_, 'rref_preserv': rp_,
+                          'own': rng.random() < 0.4, 'y': [rj(v) for v in y], 'params': [rj(v) for v in p]})
+        ev()
+        rest = list(rxns[k:])
+        while rest:
+            m = rng.randint(1, len(rest))
+            chunk, rest = rest[:m], rest[m:]
+            first = len(cur)
+            steps.append({'do': 'add', 'rxns': chunk})
+            cur = cur + chunk
+            ev(newest=list(range(first, len(cur))))
+            if rng.random() < 0.5:
+                ev(newest=list(range(first, len(cur))))
+        return {'op': 'history', 'sys': spec, 'sys_kind': es_kind, 'initial_rxns': list(rxns[:k]), 'steps': steps}
+
     def generate(self, rng, n, tier):
         cases = []
         big = tier == 'thorough'
@@ -532,6 +568,8 @@ class C07(Property):
             cases.append({'op': 'structure', 'sys': spec, 'sys_kind': es_kind,
                           'concs': [rj(self._conc(rng, False)) for _ in range(ns)],
                           'init': [rj(self._conc(rng, False)) for _ in range(ns)]})
+            if nr >= 2 and ns <= 8 and nr <= 5 and rng.random() < 0.3:
+                cases.append(self._gen_history(rng, spec, es_kind))
             if rng.random() < 0.5:
                 cases.append({'op': 'solver', 'sys': spec, 'sys_kind': es_kind,
                               'init': [rj(self._conc(rng, True)) for _ in range(ns)],
@@ -878,8 +916,10 @@ class C07(Property):
         return True
 
     # ------------------------------------------------------------------------- oracle
-    def oracle(self, c):
+    def oracle(self, c, _es=None):
         op = c['op']
+        if op == 'history':
+            return self._oracle_history(c)
         if op == 'structure':
             return self._oracle_structure(c)
         if op == 'lintanh':
@@ -901,13 +941,15 @@ class C07(Property):
             return None
         if c.get('kind') == 'precip':
             return None
-        es = build(c['sys'])
+        es = _es if _es is not None else build(c['sys'])      # _es: the live object of a history
         if has_other_phase(es):
             return None
         if es.nr == 0:
             return None      # degenerate: NumSysLin.f raises TypeError without reactions (mirrored by the model, see notes)
         N = net_matrix(c['sys'])
-        ns, nr = es.ns, es.nr
+        ns, nr = es.ns, len(N)
+        if es.nr != nr:
+            return 'the system reports nr = %d but %d reactions have been given to it' % (es.nr, nr)
         keys, B = comp_matrix(es)
         y = [unrj(v) for v in c['y']]
         p = [unrj(v) for v in c['params']]
@@ -1065,6 +1107,47 @@ class C07(Property):
                 return 'linear_rref(B, B c0) is not a row-equivalent independent system'
         return None
 
+    def _oracle_history(self, c):
+        """ONE EqSystem object through a history: evaluate, `eqsys += [Equilibrium…]`, set `rxn.param` in place, evaluate again …
+        every evaluation is judged against the object's CURRENT reactions and constants (the reactions as written in the
+        steps so far): zero pattern entry by entry, equation count = current nr + conservation relations"""
+        from chempy import Equilibrium
+        base = c['sys']
+        es = build({'species': base['species'], 'rxns': c['initial_rxns']}, Ks=[1] * len(c['initial_rxns']))   # fresh, uncached
+        if has_other_phase(es):
+            return None
+        cur = list(c['initial_rxns'])
+        done = []
+        for si, st in enumerate(c['steps']):
+            if st['do'] == 'add':
+                new = [Equilibrium({k: v for k, v in r['reac']}, {k: v for k, v in r['prod']}, 1,
+                                   inact_reac={k: v for k, v in r['inact_reac']}, inact_prod={k: v for k, v in r['inact_prod']})
+                       for r in st['rxns']]
+                es += new
+                cur = cur + list(st['rxns'])
+                done.append('+= %d' % len(new))
+                continue
+            sub = {'op': 'rref' if (st['rref_equil'] or st['rref_preserv']) else 'f', 'form': st['form'], 'kind': st['kind'],
+                   'sys': {'species': base['species'], 'rxns': cur}, 'sys_kind': c['sys_kind'], 'precipitates': [],
+                   'rref_equil': st['rref_equil'], 'rref_preserv': st['rref_preserv'], 'y': st['y'], 'params': list(st['params'])}
+            if st.get('own'):
+                # the constants live on the reactions: set them in place, evaluate with the object's own eq_constants()
+                ns = len(base['species'])
+                Ks = [unrj(v) for v in st['params'][ns:]]
+                if len(es.rxns) == len(Ks):
+                    for r_, k_ in zip(es.rxns, Ks):
+                        r_.param = k_
+                    own = list(es.eq_constants())
+                    if own != Ks:
+                        return 'step %d (%s): eq_constants() = %r after setting rxn.param in place to %r' % (si, ', '.join(done), own, Ks)
+                    sub['params'] = st['params'][:ns] + [rj(v) for v in own]
+            msg = self.oracle(sub, _es=es)
+            if msg:
+                return 'step %d of a history on one EqSystem object (after %s; %s %s rref_equil=%s rref_preserv=%s): %s' % (
+                    si, ', '.join(done) or 'construction', st['form'], st['kind'], st['rref_equil'], st['rref_preserv'], msg)
+            done.append('eval ' + st['form'])
+        return None
+
     def _oracle_structure(self, c):
         es = build(c['sys'])
         N = net_matrix(c['sys'])
@@ -1153,6 +1236,8 @@ class C07(Property):
     def classify(self, c):
         if c['op'] == 'f':
             return 'f:%s:%s:%s%s' % (c['form'], c['kind'], c['sys_kind'], ':dup' if has_repeated_species(c['sys']) else '')
+        if c['op'] == 'history':
+            return 'history:%d-adds:%d-evals' % (sum(1 for t in c['steps'] if t['do'] == 'add'), sum(1 for t in c['steps'] if t['do'] == 'eval'))
         if c['op'] == 'rref':
             return 'rref:%s:%s:eq%d:pr%d' % (c['form'], c['kind'], c['rref_equil'], c['rref_preserv'])
         return '%s:%s' % (c['op'], c.get('sys_kind'))
